@@ -9,7 +9,8 @@
 (***************************************************************************)
 EXTENDS HplGrammar
 
-CONSTANT Family
+CONSTANTS Family,
+          RandN, RandDepth   \* family "rand": number of samples and nesting depth (TLC -seed selects them)
 
 Own(n)     == [k |-> "own", name |-> n]
 NumA(t)    == [k |-> "atom", c |-> "num", tok |-> t]
@@ -208,6 +209,44 @@ ClashTerms ==
   \cup {Bn("+", Own("x"), NumA("1")), NumA("1"), StrA("$s"), SetOf(<<NumA("1"), NumA("2")>>), Call("abs", Own("x")),
         Rng("[", NumA("1"), NumA("2"), "]"), Un("-", Own("x")), Call("len", Own("xs"))}
 
+(* ---- random deep typed terms (RandomElement; reproducible through TLC's -seed) ---- *)
+RNumAtom == RandomElement(NumAtomsW \cup {NumA("2"), NumA("1.5"), Own("z")})
+RBoolAtom == RandomElement(BoolAtomsW)
+QVar(d) == "v" \o ToString(d)
+RECURSIVE RNum(_), RBool(_), RComp(_)
+RComp(d) ==
+  LET k == RandomElement(1..6) IN
+  CASE k = 1 -> SetOf(<<RNum(d)>>)
+    [] k = 2 -> SetOf(<<RNum(d), RNum(d)>>)
+    [] k = 3 -> SetOf(<<RNum(d), NumA("1"), RNum(d)>>)
+    [] k = 4 -> Rng(RandomElement({"[", "!["}), RNum(d), RNum(d), RandomElement({"]", "]!"}))
+    [] k = 5 -> Own("xs")
+    [] OTHER -> Fld(VarR("@A"), "ns")
+RNum(d) ==
+  IF d = 0 THEN RNumAtom
+  ELSE LET k == RandomElement(1..10) IN
+       CASE k <= 4 -> Bn(RandomElement(ArithOps), RNum(d - 1), RNum(d - 1))
+         [] k = 5 -> Un("-", RNum(d - 1))
+         [] k = 6 -> Call(RandomElement({"abs", "floor", "ceil", "int", "float", "sqrt"}), RNum(d - 1))
+         [] k = 7 -> Call(RandomElement({"len", "sum", "prod", "max", "min"}), RComp(d - 1))
+         [] k = 8 -> Idx(Own("xs"), RNum(d - 1))
+         [] OTHER -> RNumAtom
+RBool(d) ==
+  IF d = 0 THEN RBoolAtom
+  ELSE LET k == RandomElement(1..12) IN
+       CASE k <= 3 -> Bn(RandomElement(LogicOps), RBool(d - 1), RBool(d - 1))
+         [] k = 4 -> Un("not", RBool(d - 1))
+         [] k <= 7 -> Bn(RandomElement(EqOps \cup OrdOps), RNum(d - 1), RNum(d - 1))
+         [] k = 8 -> Bn(RandomElement(EqOps), RBool(d - 1), RBool(d - 1))
+         [] k = 9 -> Bn("in", RNum(d - 1), RComp(d - 1))
+         [] k = 10 -> Qn(RandomElement({"forall", "exists"}), QVar(d), RComp(d - 1),
+                         Bn(RandomElement({"<", "=", ">="}), VarR("@" \o QVar(d)), RNum(d - 1)))
+         [] k = 11 -> Qn(RandomElement({"forall", "exists"}), QVar(d), RComp(d - 1),
+                         Bn(RandomElement({"and", "or", "implies"}),
+                            Bn(RandomElement({"<", "!="}), VarR("@" \o QVar(d)), RNum(d - 1)), RBool(d - 1)))
+         [] OTHER -> RBoolAtom
+RandTerms == {IF i % 3 = 0 THEN RNum(RandDepth) ELSE RBool(RandDepth) : i \in 1..RandN}
+
 Members ==
   CASE Family = "num2"    -> Num2
     [] Family = "bool2"   -> Bool2
@@ -222,6 +261,7 @@ Members ==
     [] Family = "alias"   -> AliasExprs
     [] Family = "slots"   -> SlotExprs
     [] Family = "clash"   -> ClashTerms
+    [] Family = "rand"    -> RandTerms
     [] OTHER -> {}
 
 TInit == cst \in Members
